@@ -412,6 +412,9 @@ def run(tier, replay=None):
         n = nchunks(tier)
         import shutil
         work = [(tier, run_.seed, c, n, exe) for c in range(n)]
+        # every 4th chunk once more on the second compiler (clang ASan+UBSan)
+        casan = build.build_exe("casan", ["strdrv.cpp"])
+        work += [(tier, run_.seed, c, n, casan) for c in range(0, n, 4)]
         if shutil.which("valgrind"):
             work.append((tier, run_.seed, -1, n, build.build_exe("plain", ["strdrv.cpp"])))
         for part in optrun.pmap(_work, work):
